@@ -27,6 +27,8 @@
    Projection used by the harness (zz_verif_gossip_test.go):
      view[n][k] <- store n .CopyState().Nodes[key k]: g = Heartbeat.Generation,
                    v = Heartbeat.Version, s = State; k \notin DOMAIN view[n] <=> key absent
+                   (versions are concretised by the harness, per history: generation-0
+                   version v > 0 is base + v, base in {0, 65534, 65535, 2^31}; order-isomorphic)
      net        <- requests / replies held by the harness' gate transport
                    (sync: Digests; ack: Digests + Nodes; ack2: Nodes)
      exchanged, stale <- ghosts, recomputed independently by the harness
